@@ -55,6 +55,15 @@ type Num interface{ ~int8 }
 """
 FUEL = 12
 
+
+def r9_classes():
+    """Debugging aid only: C02_WITHOUT_R9_CLASSES=1 leaves out the two input classes whose defects were repaired in
+    /repo by 0c5d383 (fixes/c02-blank-type-params.diff: colliding blank type parameters) and 9b70000
+    (fixes/c02-inpackage-relative-dot.diff: `dir: .` for the package at the module root), e.g. to run the rest of the
+    check against a tree from before those commits.  The registered commands never set it: by default everything is
+    included and the model describes the repaired behaviour."""
+    return os.environ.get("C02_WITHOUT_R9_CLASSES", "0") != "1"
+
 # ---- names that the templates themselves use (C01's known-finding classes); parameters are renamed away from them
 TABOO = {"_mock", "_e", "_c", "_m", "tmpRet", "_va", "_i", "_ca", "len", "make", "append", "panic", "nil", "mock", "callInfo"}
 TESTIFY_MEMBERS = {"EXPECT", "Mock", "On", "Called", "MethodCalled", "Test", "TestData", "AssertExpectations", "AssertCalled",
@@ -156,6 +165,42 @@ def gen_rt_src(rng, name="src80"):
             "std": gen_pkgs.STD + gen_pkgs.C02_STD, "nonascii": False, "_shadow": True,
             "extra_decls": list(gen_pkgs.foreign_extra_decls(ext)) + [{"pkg": "", "kind": "alias", "name": "RtAl", "target": named("", "RtC")}],
             "_rt": {"map": {a: {tn: {"pkg-path": b, "type-name": tn}}}, "plan": plan_}}
+
+
+def gen_blank_src(rng, name="src81"):
+    """Generic interfaces with BLANK type parameters: the mock has to invent a name for `_` wherever it
+    spells its own instantiation.  The last five shapes are inside the class repaired in /repo by 0c5d383
+    (fixes/c02-blank-type-params.diff (two blanks with one constraint; a generated name that prints like a
+    declared parameter or like the constraint itself))."""
+    ext = [e for e in gen_pkgs.EXT if e["name"] != "mock"]
+    a = ext[0]["path"]
+    P, S = gen_pkgs._P, gen_pkgs._S
+    anyc, cmpc = basic("any"), {"k": "named", "pkg": None, "n": "comparable", "targs": []}
+    T, K, V = ({"k": "tparam", "n": n} for n in "TKV")
+    tp = lambda n, c, cmp_=False: {"n": n, "c": c, "cmp": cmp_}
+    err = basic("error")
+
+    def I(n, tps, methods, embeds=()):
+        return {"name": n, "tparams": tps, "methods": methods, "embeds": list(embeds), "exported": True}
+    ifaces = [
+        I("BlBox", [tp("_", anyc), tp("T", anyc)], [{"n": "Get", "sig": S([], [P("", T)])}, {"n": "Set", "sig": S([P("v", T), P("l", named("", "Local"))], [P("", err)])}]),
+        I("BlPair", [tp("_", cmpc, True), tp("_", anyc)], [{"n": "Len", "sig": S([], [P("", basic("int"))])}]),
+        I("BlFn", [tp("_", anyc)], [{"n": "Call", "sig": S([P("n", basic("int")), P("ks", {"k": "slice", "e": named("", "Key")})], [P("", basic("string"))], True)}]),
+        I("BlCmp", [tp("_", cmpc, True), tp("T", rng.choice([anyc, named("", "Num"), named(a, "Num")]))], [{"n": "Eq", "sig": S([P("x", T), P("y", T)], [P("", basic("bool"))])}]),
+        I("BlRd", [tp("_", named("io", "Reader")), tp("K", cmpc, True)], [{"n": "Idx", "sig": S([P("m", {"k": "map", "key": K, "e": named("", "Local")})], [P("", {"k": "slice", "e": K})])}]),
+        I("BlEmb", [tp("_", anyc), tp("T", anyc)], [{"n": "Extra", "sig": S([], [])}], [named("", "BlBox", [basic("int"), T]), named("", "BlFn", [{"k": "slice", "e": T}])]),
+    ]
+    if r9_classes():
+        ifaces += [
+            I("BlTwo", [tp("_", anyc), tp("_", anyc)], [{"n": "Len", "sig": S([], [P("", basic("int"))])}]),
+            I("BlMix", [tp("K", cmpc, True), tp("_", anyc), tp("V", anyc)], [{"n": "At", "sig": S([P("k", K)], [P("", V), P("", basic("bool"))])}]),
+            I("BlThree", [tp("_", anyc), tp("_", cmpc, True), tp("_", anyc)], [{"n": "Nop", "sig": S([], [])}]),
+            I("BlNum", [tp("_", named("", "Num"))], [{"n": "M", "sig": S([P("l", {"k": "ptr", "e": named("", "Local")})], [])}]),
+            I("BlNumV", [tp("V", named("", "Num")), tp("_", named("", "Num")), tp("_", anyc)], [{"n": "M", "sig": S([P("v", V)], [P("", V)])}]),
+        ]
+    return {"mod": MOD, "src": {"path": MOD + "/" + name, "name": name}, "ifaces": ifaces, "ext": ext,
+            "std": gen_pkgs.STD + gen_pkgs.C02_STD, "nonascii": False, "_shadow": False,
+            "extra_decls": list(gen_pkgs.foreign_extra_decls(ext))}
 
 
 def mockable(m):
@@ -427,8 +472,9 @@ def assertion_file(rng, m, pl):
             if not i["tparams"]:
                 emit("var _ %s%s = (*%s)(nil)" % (sq, i["name"], s), (i["name"], s, "plain"))
             else:
-                decl = ", ".join("%s %s" % (tp["n"], R.ty(tp["c"])) for tp in i["tparams"])
-                inst = ", ".join(tp["n"] for tp in i["tparams"])
+                nm = [tp["n"] if tp["n"] != "_" else "zzB%d" % k for k, tp in enumerate(i["tparams"])]      # `_` cannot be used as a type
+                decl = ", ".join("%s %s" % (n, R.ty(tp["c"])) for n, tp in zip(nm, i["tparams"]))
+                inst = ", ".join(nm)
                 emit("func _[%s]() { var _ %s%s[%s] = (*%s[%s])(nil) }" % (decl, sq, i["name"], inst, s, inst), (i["name"], s, "generic"))
                 for tu in tuples:
                     a = ", ".join(R.ty(x) for x in tu)
@@ -599,15 +645,23 @@ def obs_shapes(info, struct):
     return sorted(((x["name"], x["np"], x["variadic"], x["nr"]) for x in ms), key=lambda x: x[0].encode())
 
 
-def case_term(m, k, i, t, pl, s, wr, shapes):
+def obs_tparams(info, struct):
+    for x in info["types"]:
+        if x["name"] == struct:
+            return x.get("tpnames", [])
+    return ["<no such type>"]
+
+
+def case_term(m, k, i, t, pl, s, wr, shapes, tpnames=()):
     src = m["src"]["path"]
     dst = src if pl != "out" else MOD + "/mocks/" + m["src"]["name"]
     return ("{| c_env := env%d; c_fuel := %d; c_pkg := %s; c_name := %s; c_tps := %s; c_names := names%d; c_dst := %s; c_inpkg := %s; "
-            "c_struct := %s; c_tmpl := %s; c_resets := %s; c_obs := %s |}" % (
+            "c_struct := %s; c_tmpl := %s; c_resets := %s; c_obs := %s; c_obs_tps := %s |}" % (
                 k, FUEL, cb(src), cb(i["name"]),
                 coq_list("(%s, %s)" % (c14.lbl(tp["n"]), c14.ty_term(tp["c"], src)) for tp in i["tparams"]),
                 k, cb(dst), coq_bool(pl == "in"), cb(s), "Testify" if t == "testify" else "Matryer", coq_bool(wr),
-                coq_list("(%s, (%d, %s, %d))" % (cb(n), np_, coq_bool(v), nr) for (n, np_, v, nr) in shapes)))
+                coq_list("(%s, (%d, %s, %d))" % (cb(n), np_, coq_bool(v), nr) for (n, np_, v, nr) in shapes),
+                coq_list(cb(x) for x in tpnames)))
 
 
 def coq_defs(mod):
@@ -806,6 +860,199 @@ def witness_stream(ctx, known):
 
 
 # --------------------------------------------------------------------------------------
+# layouts: nested modules, the package at the module root with a relative `dir`
+# --------------------------------------------------------------------------------------
+LIB_STORE = """package store
+
+type Key struct{ K string }
+type Record struct {
+	Key Key
+	V   []byte
+}
+type Store interface {
+	Get(k Key) (*Record, error)
+	Put(rs ...Record) error
+	Each(f func(Key, *Record) bool)
+}
+type Cache[K comparable, V any] interface {
+	Load(k K) (V, Record, bool)
+	Keys() map[Key][]K
+}
+type Nested interface {
+	Store
+	Close() error
+}
+"""
+APP_SVC = """package svc
+
+import "example.com/lib/store"
+
+type Job struct{ ID int }
+type Runner interface {
+	Run(j Job, k store.Key) (*Job, error)
+	Keys(ks ...store.Key) []Job
+	Inner() store.Store
+}
+"""
+ROOT_PKG = """package root
+
+type Key struct{ K string }
+type Store interface {
+	Get(k Key) (*Key, error)
+	All(ks ...Key) map[Key][]Key
+}
+type Gen[T any] interface{ One(k Key) (T, Key) }
+"""
+INDIRECT = """require (
+	github.com/davecgh/go-spew v1.1.2-0.20180830191138-d8f796af33cc // indirect
+	github.com/pmezard/go-difflib v1.0.1-0.20181226105442-5d4384ee4fb2 // indirect
+	github.com/stretchr/objx v0.5.2 // indirect
+	gopkg.in/yaml.v3 v3.0.1 // indirect
+)
+"""
+
+
+def _layout_cfg(pkgs):
+    """pkgs: {import path: (package name, [interface names], [(label, dir, pkgname)])} -> mockery config; file names
+    carry the label so that several runs can write into one directory"""
+    pk = {}
+    for path, (pname, names, places) in pkgs.items():
+        ifs = {}
+        for n in names:
+            cfgs = []
+            for (label, d, pkgname) in places:
+                for t in TEMPLATES:
+                    c = {"template": t, "structname": "%s%s%s" % (PREFIX[t], label, n), "dir": d, "pkgname": pkgname,
+                         "filename": "zz_%s_%s%s.go" % (label.lower(), PREFIX[t].lower(), "_test" if pkgname == pname else "")}
+                    if t == "matryer":
+                        c["template-data"] = {"skip-ensure": True}
+                    cfgs.append(c)
+            ifs[n] = {"configs": cfgs}
+        pk[path] = {"interfaces": ifs}
+    return {"formatter": "goimports", "force-file-write": True, "log-level": "error", "packages": pk}
+
+
+def _layout_assert(pkgname, srcimport, generic, names, labels):
+    """assertion file for one destination package"""
+    q = "zsrc." if srcimport else ""
+    L = ["// Code written by the C02 check; not part of mockery's output.", "package %s" % pkgname, ""]
+    if srcimport:
+        L += ['import zsrc "%s"' % srcimport, ""]
+    for n in names:
+        for lb in labels:
+            for t in TEMPLATES:
+                s = "%s%s%s" % (PREFIX[t], lb, n)
+                if n in generic:
+                    L.append("func _[A comparable, B any]() { var _ %s%s[A, B] = (*%s[A, B])(nil) }" % (q, n, s) if generic[n] == 2 else
+                             "func _[A any]() { var _ %s%s[A] = (*%s[A])(nil) }" % (q, n, s))
+                    L.append("var _ %s%s[%s] = (*%s[%s])(nil)" % ((q, n, "string, []%sKey" % q, s, "string, []%sKey" % q) if generic[n] == 2 else (q, n, "*%sKey" % q, s, "*%sKey" % q)))
+                else:
+                    L.append("var _ %s%s = (*%s)(nil)" % (q, n, s))
+    return "\n".join(L) + "\n"
+
+
+def _go_ok(cwd, env):
+    out = ""
+    for cmd in (["go", "build", "./..."], ["go", "test", "-count=1", "-run", "^$", "./..."]):
+        p = run(cmd, cwd=cwd, env=env, timeout=900)
+        if p.returncode != 0:
+            out += (p.stdout + p.stderr).decode(errors="replace")
+    return out
+
+
+def layout_case(ctx, kind, tag):
+    """One repository layout.  -> (number of assertion lines, failure text or None, description)"""
+    root = ctx.scratch / ("layout_%s" % tag)
+    root.mkdir(parents=True)
+    gomod = lambda mod, extra="": "module %s\n\ngo 1.23\n\nrequire github.com/stretchr/testify v1.10.0\n\n%s%s" % (mod, INDIRECT, extra)
+    sums = (REPO / "go.sum").read_text()
+    files, runs = {}, []
+    env = dict(os.environ, GOPROXY="off")
+    env.pop("GOFLAGS", None)
+    if kind in ("nested-replace", "nested-work"):
+        files["lib/go.mod"] = gomod("example.com/lib")
+        files["lib/go.sum"] = sums
+        files["lib/store/store.go"] = LIB_STORE
+        files["go.sum"] = sums
+        files["svc/svc.go"] = APP_SVC
+        if kind == "nested-replace":
+            files["go.mod"] = gomod("example.com/app", "require example.com/lib v0.0.0\n\nreplace example.com/lib => ./lib\n")
+        else:
+            files["go.mod"] = gomod("example.com/app")
+            files["go.work"] = "go 1.23\n\nuse (\n\t.\n\t./lib\n)\n"
+        lib = ["Store", "Cache", "Nested"]
+        # run 1 from the outer directory: in-package and out-of-package (into the nested module) mocks of the nested module's
+        # package, in-package mocks of the outer module's package; run 2 (control) from inside the nested module
+        runs.append((".", _layout_cfg({"example.com/lib/store": ("store", lib, [("Top", "{{.InterfaceDir}}", "store"), ("Out", str(root / "lib" / "mocks"), "mk")]),
+                                       "example.com/app/svc": ("svc", ["Runner"], [("Top", "{{.InterfaceDir}}", "svc")])})))
+        runs.append(("lib", _layout_cfg({"example.com/lib/store": ("store", lib, [("Ctl", "{{.InterfaceDir}}", "store")])})))
+        asserts = {"lib/store/zz_c02_assert_test.go": _layout_assert("store", None, {"Cache": 2}, lib, ["Top", "Ctl"]),
+                   "lib/mocks/zz_c02_assert.go": _layout_assert("mk", "example.com/lib/store", {"Cache": 2}, lib, ["Out"]),
+                   "svc/zz_c02_assert_test.go": _layout_assert("svc", None, {}, ["Runner"], ["Top"])}
+        builds = [".", "lib"]
+        descr = {"layout": kind, "outer module": "example.com/app (package svc)", "nested module": "example.com/lib in ./lib (package store)",
+                 "runs": ["from the outer directory: store in-package + into lib/mocks, svc in-package", "from ./lib: store in-package"]}
+    else:   # root-dot: the package at the module root, relative output directory
+        d = {"root-dot": ".", "root-dot-slash": "./", "root-reldir": "{{.InterfaceDirRelative}}"}[kind]
+        files["go.mod"] = gomod("example.com/root")
+        files["go.sum"] = sums
+        files["root.go"] = ROOT_PKG
+        files["sub/sub.go"] = ROOT_PKG.replace("package root", "package sub")
+        names = ["Store", "Gen"]
+        runs.append((".", _layout_cfg({"example.com/root": ("root", names, [("Top", d, "root")]),
+                                       "example.com/root/sub": ("sub", names, [("Top", "{{.InterfaceDirRelative}}", "sub")])})))
+        asserts = {"zz_c02_assert_test.go": _layout_assert("root", None, {"Gen": 1}, names, ["Top"]),
+                   "sub/zz_c02_assert_test.go": _layout_assert("sub", None, {"Gen": 1}, names, ["Top"])}
+        builds = ["."]
+        descr = {"layout": kind, "module": "example.com/root with the mocked package at the module root", "dir": d, "pkgname": "root (in-package)"}
+    for rel, content in files.items():
+        (root / rel).parent.mkdir(parents=True, exist_ok=True)
+        (root / rel).write_text(content)
+    pre = "".join(_go_ok(root / b, env) for b in builds)
+    if pre:
+        raise RuntimeError("harness bug: the %s layout does not compile before mockery runs:\n%s" % (kind, pre[-2000:]))
+    fail = None
+    for k, (cwd, cfg) in enumerate(runs):
+        cf = root / cwd / (".mockery_c02_%d.json" % k)
+        cf.write_text(json.dumps(cfg, indent=1))
+        p = run([ctx.bins["mockery"], "--config", str(cf)], cwd=root / cwd, env=env, timeout=600)
+        if p.returncode != 0:
+            fail = "mockery (run %d, from %s) exit %d: %s" % (k, cwd, p.returncode, (p.stdout + p.stderr).decode(errors="replace")[-1200:])
+            break
+    n = 0
+    if fail is None:
+        for rel, content in asserts.items():
+            (root / rel).parent.mkdir(parents=True, exist_ok=True)
+            (root / rel).write_text(content)
+            n += len([x for x in content.split("\n") if x.startswith(("var _", "func _"))])
+        out = "".join(_go_ok(root / b, env) for b in builds)
+        if out:
+            fail = "\n".join(re.sub(r"^\S*?layout_[^/\s]*/", "", x) for x in out.strip().split("\n")[:14])
+    descr["files"] = {k: v for k, v in files.items() if k.endswith(".go") or k.endswith("go.mod") or k == "go.work"}
+    descr["configs"] = [{"cwd": c, "config": cfg} for c, cfg in runs]
+    descr["mockery_runs"] = len(runs)
+    return n, fail, descr
+
+
+def layout_stream(ctx, kinds=None):
+    """-> (assertion lines checked, number of layouts, any failure?)"""
+    if kinds is None:
+        kinds = ["nested-replace", "nested-work"] + (["root-dot", "root-reldir"] + (["root-dot-slash"] if ctx.thorough() else []) if r9_classes() else [])
+    total, failed, nruns = 0, False, 0
+    for j, kind in enumerate(kinds):
+        n, fail, descr = layout_case(ctx, kind, "%d_%s" % (j, kind.replace("-", "_")))
+        total += n
+        nruns += descr["mockery_runs"]
+        if fail:
+            failed = True
+            rp = ctx.write_replay("layout-%s" % kind, {
+                "what": "repository layout %s: a generated mock does not compile or is not assignable to its interface" % kind,
+                "messages": fail, "layout": descr, "layout_kind": kind})
+            ctx.violation(rp)
+    return total, len(kinds), failed, nruns
+
+
+# --------------------------------------------------------------------------------------
 # the check
 # --------------------------------------------------------------------------------------
 def corpus_srcs():
@@ -840,6 +1087,8 @@ def stats(mod, hist):
                     bump("outside the guarantee: %s/%s (counted, not mocked with that template%s)" % (t, why, " and with-resets" if t == "matryer-resets" else ""))
             if not i["_nameable"]:
                 bump("interfaces mocked in-package only (unexported name, method or type)")
+            if any(tp["n"] == "_" for tp in i["tparams"]):
+                bump("generic interfaces with blank type parameters")
             if i["tparams"]:
                 bump("generic interfaces")
                 bump("generic interfaces with %d type parameters" % len(i["tparams"]))
@@ -893,7 +1142,7 @@ def is_diamond(m, i):
         return False
 
 
-def check(ctx, only=None):
+def check(ctx, only=None, layouts=None):
     gate = proof_gate(ctx)
     if not ctx.build_tree(drivers=["mockcount"]):
         ctx.write_evidence(gate, 0, 0, "build failed", [])
@@ -918,6 +1167,7 @@ def check(ctx, only=None):
             for k, m in enumerate(srcs):
                 m["_shadow"] = k % 2 == 0      # every other external test package declares same-named types
             srcs.append(gen_rt_src(ctx.rng))
+            srcs.append(gen_blank_src(ctx.rng))
             if j == 0:
                 srcs += corpus_srcs()
             mod = {"mod": MOD, "srcs": srcs}
@@ -939,8 +1189,10 @@ def check(ctx, only=None):
                     if info is None or info.get("error"):
                         continue
                     shapes = obs_shapes(info, s)
-                    terms.append(case_term(m, k, i, t, pl, s, wr, shapes))
+                    tpn = obs_tparams(info, s)
+                    terms.append(case_term(m, k, i, t, pl, s, wr, shapes, tpn))
                     descr.append({"src": m["src"]["name"], "iface": i["name"], "template": t, "placement": pl, "struct": s,
+                                  "observed_type_parameters": tpn,
                                   "observed_methods": ["%s/%d%s/%d" % (n, a, "..." if v else "", r) for (n, a, v, r) in shapes]})
                     if i["_depth"] >= 2 or i["tparams"] or is_diamond(m, i):
                         nontrivial.add((j, m["src"]["name"], i["name"]))
@@ -990,6 +1242,15 @@ def check(ctx, only=None):
         n_wit = witness_stream(ctx, known)
         evaluations += n_wit
 
+    # ---- repository layouts (nested modules; the module-root package with a relative dir)
+    n_lay = lay_runs = 0
+    if only is None or layouts:
+        n_lines, n_lay, lay_failed, lay_runs = layout_stream(ctx, layouts)
+        evaluations += n_lines
+        oracle_failed = oracle_failed or lay_failed
+        hist["repository layouts (nested module via replace / go.work, module-root package with relative dir)"] = n_lay
+        hist["assertion lines in layout stream"] = n_lines
+
     # ---- verdicts for proofs / correspondence
     if not gate["ok"] and not oracle_failed:
         ctx.violation(gate["replay"], nofail=True)
@@ -1001,12 +1262,15 @@ def check(ctx, only=None):
                 rc, out, err = coq_eval(ctx, "explain%d" % len(detail), "From Mk Require Import Lib.Bytes %s.\nOpen Scope string_scope.\n%s" % (COQ_MODS, defs), "",
                                         "Definition R := Eval vm_compute in (map (fun s => String.string_of_list_byte s) (spec_names (%s))).\nPrint R." % term)
                 d["specification_method_set"] = re.findall(r'"([^"]*)"', " ".join(out.split())) if rc == 0 else err[-600:]
+                rc, out, err = coq_eval(ctx, "explaintp%d" % len(detail), "From Mk Require Import Lib.Bytes %s.\nOpen Scope string_scope.\n%s" % (COQ_MODS, defs), "",
+                                        "Definition R := Eval vm_compute in (match model_tparams (%s) with Some l => map (fun s => String.string_of_list_byte s) l | None => [\"<none>\"] end).\nPrint R." % term)
+                d["model_type_parameters"] = re.findall(r'"([^"]*)"', " ".join(out.split())) if rc == 0 else err[-600:]
                 mod = modules[j]
                 d["interface_source"] = go_text(mod, d["iface"])
                 d["module"] = strip(restrict(mod, d["src"], d["iface"]))
             detail.append(d)
         rp = ctx.write_replay("correspondence", {
-            "what": "the methods declared by %d generated mock type(s) differ from the specification method_set (Gen/MethodSet.v) pushed through the data model and the template's method list" % len(corr),
+            "what": "the methods (or the type parameter list) declared by %d generated mock type(s) differ from the specification method_set (Gen/MethodSet.v) pushed through the data model and the template's method list (or from mock_tparams)" % len(corr),
             "obligation": "correspondence Harness/C02.v check_case / g_check; theorems C02_method_set, C02_once",
             "coq_errors": coq_errors[:3], "examples": detail})
         ctx.violation(rp, nofail=not oracle_failed)
@@ -1019,14 +1283,19 @@ def check(ctx, only=None):
                        "non-trivial = interface with embedding depth >= 2, type parameters, or a method reached through two embedding paths; distinct by (module, package, interface)",
                        samples,
                        extra={"input_histogram": hist, "assertion_lines": n_assert, "model_mismatches": len(corr), "oracle_failed": oracle_failed,
-                              "mockery_runs": len(modules) + (1 if only is None else 0), "witness_mocks_in_known_class": n_wit},
+                              "mockery_runs": len(modules) + (1 if only is None else 0) + lay_runs, "witness_mocks_in_known_class": n_wit,
+                              "round9_classes_included (colliding blank type parameters, module-root dir '.')": r9_classes()},
                        assumptions=["go/types is trusted to compute the method set that coq/Gen/MethodSet.v specifies; the comparison of the generated mocks' method lists with that specification on every run is what ties the two",
                                     "go/parser (harness/go/mockcount) is trusted to list the declarations of a generated file; the Go compiler is the judge of assignability",
-                                    "parameter names are renamed away from the known-finding classes of C01/C14 (they are irrelevant to assignability); packages named mock are not generated"])
+                                    "parameter names are renamed away from the known-finding classes of C01/C14 (they are irrelevant to assignability); packages named mock are not generated",
+                                    "the model and the check describe the tree with the repairs 0c5d383 (blank type parameters get distinct generated names) and 9b70000 (dir '.' recognised as in-package), both committed in /repo"])
 
 
 def replay(ctx, path):
     d = json.loads(open(path).read())
+    if d.get("layout_kind"):
+        check(ctx, only=[], layouts=[d["layout_kind"]])
+        return
     mods = []
     if "module" in d:
         mods.append(d["module"])
